@@ -25,6 +25,7 @@ import (
 	"bytes"
 	"encoding/json"
 	"fmt"
+	"hash/crc32"
 	"io"
 	"math/rand"
 	"net"
@@ -986,7 +987,7 @@ func runCase(c Case) (res result) {
 	}
 	// stall shape
 	if c.Stall > 0 {
-		res.Stalled = w.stall(out, cmd.Process, readyCh, exited, deadline)
+		res.Stalled = w.stall(out, cmd.Process, readyCh, exited, began, deadline)
 	}
 	// phase 1: everything that is not held has happened
 	settled := poll(func() bool {
@@ -1072,7 +1073,7 @@ func runCase(c Case) (res result) {
 
 // stall arranges that the progress tracker blocks in its ledger dump at its next tick, lets the gated
 // transactions flow meanwhile and then lets the tracker go on.
-func (w *world) stall(out *outPipe, p *os.Process, ready <-chan struct{}, exited <-chan struct{}, deadline time.Time) string {
+func (w *world) stall(out *outPipe, p *os.Process, ready <-chan struct{}, exited <-chan struct{}, began, deadline time.Time) string {
 	open := func() {
 		select {
 		case <-w.stallGate:
@@ -1100,8 +1101,20 @@ func (w *world) stall(out *outPipe, p *os.Process, ready <-chan struct{}, exited
 	w.add(LogEv{K: "stall-armed"})
 	armed := time.Now()
 	blocked := false
+	refills := 0
 	for time.Now().Before(deadline) && time.Since(armed) < ledgerPeriod+2*time.Second {
 		b := writerBlocked(p.Pid)
+		if b == 1 && time.Since(began) < ledgerPeriod-500*time.Millisecond && refills < 4 {
+			// too early for the tracker's first tick: a late start-up line of another stage; let it out
+			refills++
+			out.unpause()
+			time.Sleep(stretched(40 * time.Millisecond))
+			out.pause()
+			if !out.fill(2 * time.Second) {
+				return "not-achieved:pipe-not-full"
+			}
+			continue
+		}
 		if b == 1 {
 			blocked = true
 			break
@@ -1460,33 +1473,52 @@ func genStream(rng *rand.Rand, c *Case, nt int, maxChanges int) {
 	}
 }
 
-// stallShape: an earlier committed transaction whose batch is held by a slow worker while a later
-// transaction's batch completes; the reports of both reach the progress tracker while it is stalled.
+// bucketOf is what utils.QuickHash computes for partition method transaction-bucket.  Used by the
+// GENERATOR only, to choose transaction ids that land in chosen buckets; no monitor uses it.
+func bucketOf(xid string, n int) int { return int(crc32.ChecksumIEEE([]byte(xid))) % n }
+
+// stallShape: an earlier committed transaction A whose batch is held by a slow worker while the batch
+// of a later transaction B completes; the reports of both reach the progress tracker while it is
+// stalled.  Partition method transaction-bucket: P and B share a bucket (one batch, one written report,
+// and BEGIN/COMMIT are keyed by the bucket too, so no empty batch adds a report), A is in another one.
+// With a buffered seen channel the tracker then finds one seen list and one written report ready
+// and takes the written report first with probability 1/2.
 func stallShape(rng *rand.Rand) Case {
 	c := genConfig(rng)
 	c.Mode = "gen-stall"
 	c.Workers = 2 + rng.Intn(3)
 	c.Routing = "round-robin"
-	c.Method = []string{"tablename", "transaction"}[rng.Intn(2)]
+	c.Method = "transaction-bucket"
+	c.Buckets = 2 + rng.Intn(3)
+	c.Whitelist, c.Blacklist = nil, nil
 	lsn := c.S0
 	step := func() uint64 { lsn += uint64(1 + rng.Intn(30)); return lsn }
-	tb := rng.Perm(3)
-	mk := func(x int, tabs ...int) Txn {
-		t := Txn{Xid: strconv.Itoa(700 + x), Begin: step()}
-		for _, k := range tabs {
-			t.Changes = append(t.Changes, Change{Lsn: step(), Table: tables[tb[k]]})
+	next := 700 + rng.Intn(200)
+	xidIn := func(bucket int, same bool) string {
+		for {
+			x := strconv.Itoa(next)
+			next++
+			if (bucketOf(x, c.Buckets) == bucket) == same {
+				return x
+			}
+		}
+	}
+	mk := func(xid string) Txn {
+		t := Txn{Xid: xid, Begin: step()}
+		for k := 1 + rng.Intn(2); k > 0; k-- {
+			t.Changes = append(t.Changes, Change{Lsn: step(), Table: tables[rng.Intn(3)], Op: []string{"", "UPDATE"}[rng.Intn(2)]})
 		}
 		t.Commit = step()
 		return t
 	}
-	// P (acknowledgeable, shows that a tick has passed), A (held), B (completes) [, C]
-	p, a, b := mk(0, 1), mk(1, 0), mk(2, 1)
+	pb := rng.Intn(c.Buckets)
+	p, a, b := mk(xidIn(pb, true)), mk(xidIn(pb, false)), mk(xidIn(pb, true))
 	if rng.Intn(2) == 0 {
 		interleave(rng, &a, &b)
 	}
 	c.Txns = []Txn{p, a, b}
 	if rng.Intn(2) == 0 {
-		c.Txns = append(c.Txns, mk(3, 2))
+		c.Txns = append(c.Txns, mk(xidIn(pb, true)))
 	}
 	c.HoldLsn = []uint64{c.Txns[1].Changes[0].Lsn}
 	c.Stall = 1
